@@ -23,6 +23,11 @@ SUBMISSIONS = {
     # two submissions of the same file that take different branches (what a statement-coverage measurement sees)
     "branch_else": "x = 0\nif x:\n    y = 2\nelse:\n    y = 3\nprint(y)\n",
     "branch_if": "x = 1\nif x:\n    y = 2\nelse:\n    y = 3\nprint(y)\n",
+    # submissions of TWO files: the second one is imported lazily inside a method (A) or at the top (B)
+    "greetA": {"answer.py": "class Greeter:\n    def greet(self):\n        import phrases\n        return phrases.GREETING\n\ndef make_greeter():\n    return Greeter()\n",
+               "phrases.py": "GREETING = 'Hello!'\n"},
+    "greetB": {"answer.py": "import phrases\n\nclass Greeter:\n    def greet(self):\n        return phrases.GREETING\n\ndef make_greeter():\n    return Greeter()\n\nprint('greeting is', phrases.GREETING)\n",
+               "phrases.py": "GREETING = 'Howdy!'\n"},
     "realmut": "import math\nmath.pi = 3\nprint(math.pi)\n",
     "mathy": "import math\narea = math.pi * 2 ** 2 + 1\nprint(area)\n",
     # attribute assignments on values of builtin types: TIFA records them in the value's method table
@@ -89,6 +94,8 @@ SCRIPTS = {
     # graded through the VPL environment (its resolver prints "Grade :=>> N" scaled by a maximum score the script may set)
     "vplmax@vpl": ("from pedal import *\nfrom pedal.environments.vpl import set_maximum_score\nset_maximum_score(100)\nset_success()\nresolve()\n"),
     "vplplain@vpl": ("from pedal import *\nset_success()\nresolve()\n"),
+    # calls a METHOD of an object the student's function returned (student code running after the sandbox call returned)
+    "greeter": ("from pedal import *\nsuppress('algorithmic', 'unused_variable')\ngreeter = call('make_greeter')\nassert_equal(greeter.greet(), 'Hello!')\n"),
     "raiser_b": ("from pedal import *\ndef broken(x):\n    return int('not a number (script B)')\n"
                  "mock_function('len', broken)\nrun()\n"),
 }
@@ -123,7 +130,8 @@ def grade_vpl(script_id, sub_id):
     out = {"error": None, "label": None, "title": None, "message": None, "correct": None, "score": None, "student_output": None}
     with redirect_stdout(captured):
         try:
-            env = VPLEnvironment(main_code=SUBMISSIONS[sub_id], main_file="answer.py", instructor_file="on_run.py")
+            code = SUBMISSIONS[sub_id]["answer.py"] if isinstance(SUBMISSIONS[sub_id], dict) else SUBMISSIONS[sub_id]
+            env = VPLEnvironment(main_code=code, main_file="answer.py", instructor_file="on_run.py")
             namespace = dict(env.fields)
             exec(compile(SCRIPTS[script_id], "on_run.py", "exec"), namespace)
         except Exception as e:
@@ -142,8 +150,8 @@ def grade(script_id, sub_id):
     class Config:
         threaded = False
         resolver = "resolve"
-    sub = Submission(files={"answer.py": SUBMISSIONS[sub_id]}, main_file="answer.py",
-                     main_code=SUBMISSIONS[sub_id], instructor_file="on_run.py")
+    files = SUBMISSIONS[sub_id] if isinstance(SUBMISSIONS[sub_id], dict) else {"answer.py": SUBMISSIONS[sub_id]}
+    sub = Submission(files=dict(files), main_file="answer.py", main_code=files["answer.py"], instructor_file="on_run.py")
     b = Bundle(Config(), SCRIPTS[script_id], sub)
     b.environment = "standard"
     b.run_ics_bundle(skip_tifa=script_id.endswith("_notifa"))
